@@ -25,10 +25,17 @@ ASSUMPTIONS = [
     "A-TCP: loopback is a lossless FIFO",
     "A-CLOCK / A-SSL fail-stop (C07 for the TLS glue): the limited-budget theorem assumes a wait(t>=0) returns within t, send/recv take no time, "
     "and that after a failed BIO callback the engine makes no further BIO call and reports no success, and never writes zero bytes (true of libssl)",
-    "handshake completion is a theorem only for the restriction handshake_completes_partial (both endpoints synchronous, "
-    "timeout 0, round-robin polling schedule, reference engine Hs.engine, healthy channel with arbitrary read segmentation); "
-    "async endpoints, unlimited/limited timeouts, other call orders, short/refused writes and the agreement of the reference "
-    "engine with OpenSSL rest on the pairing matrix run here (complete in the thorough tier)",
+    "handshake completion is a theorem of the glue composed twice over two FIFO channels with the reference engine Hs.engine "
+    "(healthy channel: every write accepted in full, arbitrary read segmentation) for: any order of zero-timeout calls under "
+    "fairness (no side starved: handshake_completes_any_schedule / _counting / _prog_fair); any per-call timeouts T >= 0 under "
+    "virtual time in a SEQUENTIAL composition (handshake_completes_any_timeouts); one side with an unlimited timeout while the "
+    "other polls with timeout 0, the blocked side resuming at the end of a peer call (handshake_completes_one_side_unlimited); "
+    "a driver-operated asynchronous endpoint of either role with a send queue (readable and writable tasks, DriverQuery's POLLOUT "
+    "protocol; a client must have a buffer queued, else its lazy handshake never starts) paired with a polling synchronous peer "
+    "(handshake_completes_async_endpoint, handshake_completes_async_server). "
+    "Async/async pairings, an async endpoint with a blocking peer, both sides "
+    "blocking at once, limited timeouts with true concurrency, short/refused writes and the agreement of the reference engine "
+    "with OpenSSL rest on the pairing matrix run here (complete in the thorough tier)",
 ]
 TRUSTED = ["system OpenSSL 3 (libssl/libcrypto)", "link-time interposition of SSL_read/SSL_write_ex/BIO_get_data in the harness",
            "the run-time property predicate is lean/SockModel/Spec/C18.lean (typed observations Obs, specStep / specRun / specFinal; "
@@ -187,7 +194,19 @@ LEVEL_TEXT = ("Machine-checked theorems about the library's TLS glue (Read/Write
               "Legacy configurations with proved violations. Completion of the handshake is proved for the real glue model composed "
               "twice over two FIFO channels with a reference handshake engine (handshake_completes_partial: both endpoints synchronous, "
               "timeout 0, polling schedule [c.Send, s.Receive, s.Send, c.Receive], every flight size, payload, receive size and wire "
-              "segmentation; explicit bound 2(k1+k2+k3+3) rounds; no call throws; decreasing measure round_progress), followed by the payload phase "
+              "segmentation; explicit bound 2(k1+k2+k3+3) rounds; no call throws; decreasing measure round_progress) and, beyond the polling "
+              "schedule (DESIGN 0.18, Props/C18Hs.lean): for EVERY schedule of zero-timeout calls - any order of the two sides' calls, any mix of "
+              "Send/Receive, per-call receive sizes, finite or infinite - in which no side is starved (per-call lemma call_progress; weakest "
+              "form handshake_completes_counting: 2(k1+k2+k3+3) calls made by a side that could progress; handshake_completes_any_schedule: "
+              "each side calls once per window of w calls, bound w*2(k1+k2+k3+3); starved_server/client_never_completes show the hypothesis is "
+              "needed); for arbitrary per-call timeouts T>=0 under virtual time (timed_call_is_zero_call for ANY engine: a call with T>=0 on the "
+              "healthy channel is the zero-timeout call plus at most T of clock; handshake_completes_any_timeouts); for one side calling with an "
+              "unlimited timeout while the other polls, in an interleaving semantics where a blocked wait runs the peer's real calls until the "
+              "descriptor is ready (blocked_wait_is_released, unlimited_send/receive_completes_handshake, handshake_completes_one_side_unlimited); "
+              "and for a driver-operated asynchronous endpoint of either role, with a send queue, paired with a polling synchronous peer "
+              "(deemed_flags_are_harmless for ANY engine: the driver's readable/writable tasks are zero-timeout calls; readable_task_clears_flag; "
+              "readable_task_progress / writable_task_progress; handshake_completes_async_endpoint: every fair schedule of driver steps, user "
+              "enqueues and peer calls, bound w*2(k1+k2+k3+3), Armed and its converse throughout; handshake_completes_async_server), followed by the payload phase "
               "for the call order that exposed F7 (send_after_idle_receive_flows) and the refutation of the pre-319faf2 glue in the same "
               "composition (legacy_stall_state_reached, legacy_polling_schedule_stalls: handshake done, channels empty for ever); for the other "
               "pairings / timeout modes / call orders it is established by the exhaustive implementation matrix only. C07 for the TLS glue (DESIGN 0.14): for every engine, world, starting state and number of rounds / BIO calls / partial sends, with every wait read off a logging world (logging_is_transparent): timeout 0 issues only zero waits and lets no time pass (tls_zero_never_blocks); a negative timeout issues only unlimited waits and, with a blocking engine, never returns nothing / a short count (tls_unlimited_waits, tls_unlimited_receive_never_nothing, tls_unlimited_send_complete); a non-negative budget never turns negative in any world (tls_budget_never_negative); a positive timeout T: every wait argument t satisfies 0 <= t <= T - elapsed and the call returns by entry+T (tls_limited_budget, under ClockOk and Engine.FailStop); the seeded BioRead-without-write-back is refuted as a counter-model with total wait 2T (seeded_bioRead_doubles_the_wait) and each engine hypothesis is shown necessary (stale_budget_after_callback_failure, stale_budget_after_empty_write, unlimited_receive_needs_blocking_engine). Tied to /repo on every run: the real sockets run the pairing matrix against real OpenSSL; "
@@ -202,10 +221,13 @@ LEVEL_TEXT = ("Machine-checked theorems about the library's TLS glue (Read/Write
 LEVEL_NOTE = ("spec_holds_on_model_partial covers the event-by-event clauses (Spec.specRun) only: the end-of-case clauses (Spec.specFinal: wire format, "
               "received = prefix / all of what the peer sent, no failure on a healthy connection, exchange not stuck, a non-TLS peer is reported) are about OpenSSL, the "
               "channel and the schedule and are checked on the implementation only; hypotheses: VClock (A-CLOCK + a wait that times out waited its whole timeout), EngOk, "
-              "no assert fires (a firing assert is a crash and is rejected by the predicate). The C07 budget theorems for the TLS glue assume A-CLOCK (ClockOk: clock monotone across waits, a wait(t>=0) returns within t, send/recv on the non-blocking descriptor take no time) and, for T>0, A-SSL fail-stop (after a BIO callback returned -1 libssl makes no further BIO call and reports no success; BIO_write is never invoked with 0 bytes): UnderDeadline/BioWrite do not write the budget back on the exception path and a zero-length SendSome that times out restores the full budget - latent, unreachable with libssl, witnesses in Props/C18.lean. handshake_completes is proved ONLY in the restricted form handshake_completes_partial (sync/sync, timeout 0, polling "
-              "schedule, reference engine, healthy channel, any read segmentation); the pre-ee81033 variant is refuted at the single-endpoint "
+              "no assert fires (a firing assert is a crash and is rejected by the predicate). The C07 budget theorems for the TLS glue assume A-CLOCK (ClockOk: clock monotone across waits, a wait(t>=0) returns within t, send/recv on the non-blocking descriptor take no time) and, for T>0, A-SSL fail-stop (after a BIO callback returned -1 libssl makes no further BIO call and reports no success; BIO_write is never invoked with 0 bytes): UnderDeadline/BioWrite do not write the budget back on the exception path and a zero-length SendSome that times out restores the full budget - latent, unreachable with libssl, witnesses in Props/C18.lean. handshake_completes is proved in the forms listed above (any fair order of zero-timeout calls; per-call timeouts T>=0 in a "
+              "sequential composition under virtual time; one side unlimited + one side polling, blocked side resumed at peer-call granularity; "
+              "asynchronous endpoint of either role with a send queue + polling synchronous peer), always with the reference engine on a healthy channel "
+              "(every write accepted in full, any read segmentation), NOT in full: async/async pairings, an asynchronous endpoint with a blocking peer, "
+              "both sides blocking, and concurrency finer than call granularity are not covered by a liveness theorem; the pre-ee81033 variant is refuted at the single-endpoint "
               "level only (the healthy channel of the composition never refuses a write). Trusted: Lean kernel; axioms propext/Quot.sound/Classical.choice; the hand-written model (correspondence on the "
               "generated matrix only); harness, vos shim and the OpenSSL interposers. Confidentiality and the TLS protocol itself are "
-              "OpenSSL's (assumed); handshake completion for async endpoints and blocking timeouts rests on the pollout_protocol "
-              "invariant plus the exhaustive implementation matrix, not on a single liveness theorem. F8 (async receive buffer smaller than a "
+              "OpenSSL's (assumed); handshake completion for the async pairings not listed above rests on the pollout_protocol "
+              "invariant plus the exhaustive implementation matrix, not on a liveness theorem. F8 (async receive buffer smaller than a "
               "TLS record) is repaired upstream (e840f43); the model carries both sides: legacy_pending_stalls / received_is_served.")
